@@ -374,8 +374,9 @@ type BytesV struct {
 	WinConst bool    // the window is bytes [WinOff, WinOff+WinN) of the buffer WinOf: its content is read from
 	WinOff   int64   // the buffer when it is needed (resolveBytes), never from a snapshot taken when it was sliced
 	WinN     int64
-	LenSym   string   // the length is that of this container (see IntV.LenOf)
-	CopyOf   *StrByte // inside a loop: the only store so far was buf[Idx] = S[Idx]
+	LenSym   string          // the length is that of this container (see IntV.LenOf)
+	CopyOf   *StrByte        // inside a loop: the only store so far was buf[Idx] = S[Idx]
+	ConstAt  map[int64]int64 // a local table of byte constants (`masks := [...]byte{0xf0, …}`): the bytes stored so far; HasVal is false then
 }
 
 // MinLen is the symbolic length Const + Coef·|Min(v)|, |Min(v)| the length of the minimal
